@@ -115,7 +115,7 @@ static Type *type_suffix(Token **rest, Token *tok, Type *ty);
 static Type *declarator(Token **rest, Token *tok, Type *ty);
 static Node *declaration(Token **rest, Token *tok, Type *basety, VarAttr *attr);
 static void array_initializer2(Token **rest, Token *tok, Initializer *init, int i);
-static void struct_initializer2(Token **rest, Token *tok, Initializer *init, Member *mem);
+static void struct_initializer2(Token **rest, Token *tok, Initializer *init, Member *mem, bool cont);
 static void initializer2(Token **rest, Token *tok, Initializer *init);
 static Initializer *initializer(Token **rest, Token *tok, Type *ty, Type **new_ty);
 static Node *lvar_initializer(Token **rest, Token *tok, Obj *var);
@@ -1046,7 +1046,7 @@ static void designation(Token **rest, Token *tok, Initializer *init) {
     Member *mem = struct_designator(&tok, tok, init->ty);
     designation(&tok, tok, init->children[mem->idx]);
     init->expr = NULL;
-    struct_initializer2(rest, tok, init, mem->next);
+    struct_initializer2(rest, tok, init, mem->next, true);
     return;
   }
 
@@ -1176,6 +1176,10 @@ static void struct_initializer1(Token **rest, Token *tok, Initializer *init) {
       continue;
     }
 
+    // Unnamed bit-fields do not take part in initialization.
+    while (mem && mem->is_bitfield && !mem->name)
+      mem = mem->next;
+
     if (mem) {
       initializer2(&tok, tok, init->children[mem->idx]);
       mem = mem->next;
@@ -1186,10 +1190,16 @@ static void struct_initializer1(Token **rest, Token *tok, Initializer *init) {
 }
 
 // struct-initializer2 = initializer ("," initializer)*
-static void struct_initializer2(Token **rest, Token *tok, Initializer *init, Member *mem) {
-  bool first = true;
+// If `cont` is true, the list continues after a designated member, so
+// every initializer here is preceded by a comma.
+static void struct_initializer2(Token **rest, Token *tok, Initializer *init, Member *mem, bool cont) {
+  bool first = !cont;
 
   for (; mem && !is_end(tok); mem = mem->next) {
+    // Unnamed bit-fields do not take part in initialization.
+    if (mem->is_bitfield && !mem->name)
+      continue;
+
     Token *start = tok;
 
     if (!first)
@@ -1277,7 +1287,7 @@ static void initializer2(Token **rest, Token *tok, Initializer *init) {
       return;
     }
 
-    struct_initializer2(rest, tok, init, init->ty->members);
+    struct_initializer2(rest, tok, init, init->ty->members, false);
     return;
   }
 
